@@ -315,7 +315,14 @@ func runSync(c *Case) ([]Obs, any) {
 	}
 
 	// crash / fault analysis (C10)
-	extra := map[string]any{"storage_ops": store.OpCount() - bootOps, "mutations": len(store.Log), "fault_hit": store.Failed}
+	var mutOps []int
+	for _, o := range store.MutOps {
+		if o > bootOps {
+			mutOps = append(mutOps, o-bootOps)
+		}
+	}
+	extra := map[string]any{"storage_ops": store.OpCount() - bootOps, "mutations": len(store.Log), "fault_hit": store.Failed,
+		"mutation_ops": mutOps}
 	loadChain := func(img *VStore) []int64 {
 		g := &flowNode{ctx: f.ctx, store: img, bu: bu, tu: tu, cfg: testCfg{2000}}
 		var res []int64
